@@ -62,6 +62,8 @@ func (r *Reader) Reset() error {
 	}
 
 	r.leafNode = nil
+	r.leafValue = nil
+	r.hoff = 0
 
 	return nil
 }
